@@ -901,7 +901,7 @@ class Constraints:
     def lax_multiple_of(cls, value, of: int):
         mod = value % of
         if mod:
-            return (value // of) * of
+            return cls._bound_as(value, (value // of) * of)
         return value
 
     @classmethod
@@ -970,7 +970,7 @@ class Constraints:
 
     @classmethod
     def lax_const(cls, value, v):
-        return v
+        return cls._bound_as(value, v)
 
     @classmethod
     def enum(cls, value, lst):
@@ -995,7 +995,7 @@ class Constraints:
             value = value.value
 
         if value not in lst:
-            return list(lst)[0]
+            return cls._bound_as(value, list(lst)[0])
         return value
 
     @classmethod
@@ -1019,7 +1019,7 @@ class Constraints:
     @classmethod
     def lax_ge(cls, value, ge):
         if value < ge:
-            return ge
+            return cls._bound_as(value, ge)
         return value
 
     @classmethod
@@ -1037,8 +1037,23 @@ class Constraints:
     @classmethod
     def lax_le(cls, value, le):
         if value > le:
-            return le
+            return cls._bound_as(value, le)
         return value
+
+    @classmethod
+    def _bound_as(cls, value, bound):
+        # a lax constraint outputs a declared constant in place of the value: hand it out as a value of the
+        # input's own type (a float type declared with ge=Lax(0) gives 0.0, not the int 0) when that keeps the
+        # number; only int / float / Decimal mixes are tolerated in declarations (TYPE_EXACT_TOLERANCE)
+        if isinstance(bound, type(value)):
+            return bound
+        if not isinstance(value, (int, float, Decimal)) or not isinstance(bound, (int, float, Decimal)):
+            return bound
+        try:
+            converted = type(value)(bound)
+        except (TypeError, ValueError, ArithmeticError):
+            return bound
+        return converted if converted == bound else bound
 
     @classmethod
     def length(cls, value, lg):
